@@ -286,11 +286,16 @@ pub fn make_module() -> KMap {
 
                     let mut write_index = 0;
                     for read_index in 0..l.len() {
-                        let value = l.data()[read_index].clone();
+                        // The predicate could modify the list, so the indices are checked
+                        let Some(value) = l.data().get(read_index).cloned() else {
+                            break;
+                        };
                         match ctx.vm.call_function(f.clone(), value.clone()) {
                             Ok(KValue::Bool(result)) => {
                                 if result {
-                                    l.data_mut()[write_index] = value;
+                                    if let Some(slot) = l.data_mut().get_mut(write_index) {
+                                        *slot = value;
+                                    }
                                     write_index += 1;
                                 }
                             }
@@ -303,7 +308,7 @@ pub fn make_module() -> KMap {
                             Err(error) => return Err(error),
                         }
                     }
-                    l.data_mut().resize(write_index, KValue::Null);
+                    l.data_mut().truncate(write_index);
                     l
                 }
                 (KValue::List(l), [value]) => {
